@@ -76,7 +76,7 @@ MANIFEST_TEXT = ('Exhaustive enumeration against dense NumPy arrays. quick: ever
                  'expressions; every ordered pair of tracks x {+,-,*,<,>,==} and of masks x {&,|} on genomes (3), (2,2), (1,2,1); BFS '
                  'closure of depth 2 over {+,-,*,<,>,==,&,|,~, scalars 0,1,2} from 6 root sets. thorough: all value assignments from '
                  '{0,1,2} on 1..2 contigs of size 1..3, 3 contigs of size 1..3 (value patterns), 1..2 contigs up to size 5, 3 contigs with one size-4 '
-                 'contig, 4 contigs of size 1..2; <= 3 intervals in every order; pairs on 7 genomes; depth-2 closure and depth 3 '
+                 'contig (others <= 2), 4 contigs of size 1..2; <= 3 intervals in every order; pairs on 7 genomes; depth-2 closure and depth 3 '
                  '(every depth-2 result x every leaf, both operand orders, and ~) from 12 root sets.')
 MANIFEST_NOTE = ('Trusted: NumPy (it is the oracle: the same operation on dense arrays), CPython, engine/observe.py, '
                  'models/genome.py. npstructures run-length arrays are NOT trusted: they are exercised as part of the library\'s '
@@ -107,8 +107,8 @@ def _bg_slices(tier, seed):
          [('int', ('pattern', (1, 2))), ('int', ('pattern', (0, 1))), ('float', ('pattern', (1, 2))), ('bool', ('pattern', (1,)))]),
         ('c:<=2 contigs, a contig of size 4 or 5', [g for g in M.genomes(2, 5) if max(g) >= 4],
          [('int', ('pattern', (1, 2))), ('float', ('pattern', (2, 1))), ('bool', ('pattern', (1,)))]),
-        ('d:3 contigs, exactly one of size 4, others <=3',
-         [g for g in M.genomes(3, 4, 3) if sorted(g)[-1] == 4 and sorted(g)[-2] <= 3], [('int', ('pattern', (1, 2)))]),
+        ('d:3 contigs, exactly one of size 4, others <=2',
+         [g for g in M.genomes(3, 4, 3) if sorted(g)[-1] == 4 and sorted(g)[-2] <= 2], [('int', ('pattern', (1, 2)))]),
         ('e:4 contigs, size<=2', M.genomes(4, 2, 4),
          [('int', ('pattern', (1, 2))), ('int', ('pattern', (0, 1))), ('float', ('pattern', (1, 2))), ('bool', ('pattern', (1,)))]),
     ]
@@ -208,7 +208,7 @@ def _bg_count(genomes_, modes):
 
 
 COST_MS = {'bg': 21.0, 'iv': 18.0, 'pair': 1.8}      # measured CPU cost per case (root + derived menu) / per transition
-TARGET_S = {'quick': 15.0, 'thorough': 130.0}
+TARGET_S = {'quick': 15.0, 'thorough': 110.0}
 
 
 def shards(tier, seed):
@@ -231,7 +231,7 @@ def shards(tier, seed):
         for p in range(k):
             out.append({'section': 'pairs', 'slice': si, 'part': p, 'of': k, 'tier': tier, 'seed': seed})
     for ri, depth in _deep_plan(tier, seed):
-        k = 1 if tier == 'quick' else 2
+        k = 1
         for p in range(k):
             out.append({'section': 'deep', 'rootset': ri, 'depth': depth, 'part': p, 'of': k, 'tier': tier, 'seed': seed})
     return out
